@@ -273,10 +273,8 @@ func headerOK(h *head.Header, signed bool) (bool, string) {
 // refreshDigestFact recomputes the abstract fact "the digest matches the
 // document" by comparing content (harness JSON comparison, not gobl's digest).
 func (s *lifeSlot) refreshDigestFact() {
-	if s.m.liveEdited {
-		s.m.digestMatches = false
-		return
-	}
+	// (an in-memory edit does not by itself make the digest stale: a later edit may put the
+	// old value back, and the fact is about content)
 	cur, err := json.Marshal(s.env.Document)
 	if err != nil || s.m.calcDoc == nil {
 		s.m.digestMatches = false
